@@ -1714,6 +1714,8 @@ def run(res, tier):
     res.rule("WR-3", "pointers from as_ptr() of read-only slice operands never become store destinations")
     res.rule("COL-2", "core noise-free operations read an operand at the loop's column index only below the operand's own rank + 1 (bound equal, min-dominated, or ranks asserted equal)")
     res.rule("WR-8", "inside a for_each over inputs the first operation on a loop-invariant result column is not an overwrite-type operation (every iteration would discard the previous ones)")
+    res.rule("ZERO-1", "ZnxZero::zero of the HAL layouts clears the active window (raw_mut), not the backing buffer")
+    res.rule("PART-1", "the closure handling one part of a slice of results bounds its limb loops by that part's own limb count")
     res.rule("WR-7", "block extraction into an output operand: rows extracted + rows zero-filled = rows of the destination block (or the extraction alone covers it, in the frame that sizes the temporary)")
     res.rule("WR-6", "carry buffers of shift / normalisation shape functions are written (first_step* kernel or znx_zero) before any middle/final step reads them on every feasible path, zero-trip loops included (a skipped `for j in 0..T` implies T == 0)")
     res.rule("WR-5", "every mutable use of a column-selected output operand is column-selective (at_mut / zero_at), a re-view, or a hand-over to another shape function; whole-object mutators are violations (five raw-offset functions listed by name)")
@@ -1745,6 +1747,10 @@ def run(res, tier):
         res.floor("WR-2", "raw-offset writers of a column-selected output", n2b, 1)
         n8 = wr8(p, res)
         res.floor("WR-8", "for_each bodies operating on a result column", n8, 1)
+        nz = zero1(p, res)
+        res.floor("ZERO-1", "ZnxZero::zero impls", nz, 4)
+        npt = part1(p, res)
+        res.floor("PART-1", "limb loops over a part of a slice of results", npt, 2)
         n7 = wr7(p, res)
         res.floor("WR-7", "block extractions into an output operand", n7, 2)
         n5 = wr5(p, res)
@@ -1755,3 +1761,68 @@ def run(res, tier):
     if tier == "thorough":
         from . import witness
         witness.check(res, ["W1ReadOnlyViews"])
+
+
+def zero1(p, res):
+    """`ZnxZero::zero` of the HAL layouts clears the active window of the object - the slice `raw_mut()` (n * cols * size scalars) - and nothing else: the backing buffer also holds the
+    limbs between `size` and `max_size`, which the operation does not own.  Every impl fills a slice that comes from `raw_mut` / a limb accessor, not the `data` field itself."""
+    n = 0
+    for f in sorted(p.lib_fns(), key=lambda x: x.uid):
+        if f.name != "zero" or f.kind == "Closure" or not f.blocks or f.is_test() or not f.uid.startswith("poulpy_hal::layouts"):
+            continue
+        flow = Flow(f, transparent=("deref_mut", "deref", "as_mut", "as_mut_slice", "borrow_mut", "index_mut", "cast_slice_mut"))
+        fills = [(bi, t) for bi, t in f.calls() if (f.callee_def(t) or {}).get("n") in ("fill", "znx_zero_ref", "znx_zero", "write_bytes") and t["a"]]
+        if not fills:
+            continue
+        n += 1
+        bad = None
+        for bi, t in fills:
+            for r in flow.op_roots(t["a"][0]):
+                if r[0] == "param" and r[2] and r[2][-1] == "data":
+                    bad = t["l"]
+                elif r[0] == "call" and (f.callee_def(f.blocks[r[1]]["t"]) or {}).get("n") not in ("raw_mut", "at_mut", "at_mut_ptr"):
+                    bad = bad  # other helpers: not judged
+        if bad:
+            res.bad("ZERO-1", f.pretty, "zero-fills-backing-buffer", "%s fills the `data` buffer itself: the limbs between `size` and `max_size` belong to the capacity of the object, not to its value - "
+                    "clearing them modifies memory beyond the active size (the sibling layouts and `zero_at` go through `raw_mut()` / the limb accessor)" % f.pretty, site=f.where(bad))
+        else:
+            res.ok("ZERO-1", {"fn": f.pretty})
+    return n
+
+
+def part1(p, res):
+    """operations over a slice of result objects (`vec_znx_split_ring`): inside the closure that handles one part, the limb loops that write the part run up to a bound that mentions the
+    part's own limb count - the parts of a split may have different sizes, and a bound hoisted from part 0 writes zeros into (or indexes past) the others."""
+    from .rad import _deep_atoms
+    n = 0
+    for f in sorted(p.lib_fns(), key=lambda x: x.uid):
+        if f.kind != "Closure" or not f.blocks or not f.uid.startswith(("poulpy_cpu_ref::reference::vec_znx::split_ring", "poulpy_cpu_ref::reference::vec_znx::merge_rings")):
+            continue
+        g = CFG(f)
+        flow = Flow(f)
+        vflow = Flow(f, transparent=wr.VIEW_T + ("deref_mut", "deref"))
+        sym = Sym(f, flow)
+        for L in g.loops():
+            nx = [b for b in sorted(L["body"]) if f.blocks[b]["t"] and f.blocks[b]["t"]["k"] == "Call" and (f.callee_def(f.blocks[b]["t"]) or {}).get("n") == "next" and g.innermost_loop(b) is L]
+            if not nx:
+                continue
+            rg = wr.range_of_next(f, flow, sym, f.blocks[nx[0]]["t"])
+            if rg is None:
+                continue
+            var = Poly.atom(("call", f.uid, nx[0], ("0",)))
+            own = False
+            for b in L["body"]:
+                t = f.blocks[b]["t"]
+                if t and t["k"] == "Call" and (f.callee_def(t) or {}).get("n") == "at_mut" and len(t["a"]) == 3 and sym.operand(t["a"][2]) == var:
+                    if any(r[0] == "param" and r[1] >= 2 for r in vflow.op_roots(t["a"][0])):
+                        own = True
+            if not own:
+                continue
+            n += 1
+            mentions = any(a[0] == "p" and a[1] >= 2 for pl in rg for a in _deep_atoms(pl))
+            if mentions:
+                res.ok("PART-1", {"closure": f.pretty, "bounds": [repr(rg[0]), repr(rg[1])]})
+            else:
+                res.bad("PART-1", f.pretty, "part-bound-not-its-own", "%s writes the limbs %r..%r of the part it was handed, a range that does not mention that part's own limb count: parts of "
+                        "different sizes get zeros where the source has data, or are indexed past their size" % (f.pretty, rg[0], rg[1]), site=f.where())
+    return n
